@@ -378,6 +378,17 @@ pub fn grid_word(kind: &str, len: usize) -> Option<(String, &'static str)> {
             w.push_str(&pat(IDENT_CHARS, len - 5, 3));
             Some((w, "Identifier"))
         }
+        "digits" => {
+            // digits only (no separators): the width of a scanner that tests several bytes at once
+            if len == 0 { return None; }
+            Some((pat(b"0123456789", len, 7), "NumberLiteral(Decimal)"))
+        }
+        "hexdigits" => {
+            if len < 2 { return None; }
+            let mut w = String::from("$");
+            w.push_str(&pat(b"0123456789ABCDEFabcdef", len - 1, 8));
+            Some((w, "NumberLiteral(Hex)"))
+        }
         "decimal" => {
             if len == 0 { return None; }
             let mut w = String::from("7");
@@ -439,7 +450,8 @@ impl Suite for Grid {
         // numbers: a delimiter that continues the literal makes the expectation void
         let d0 = tail.chars().next();
         let continues = match (*kind).as_str() {
-            "decimal" => matches!(d0, Some('.' | 'e' | 'E' | '_' | '0'..='9')),
+            "decimal" | "digits" => matches!(d0, Some('.' | 'e' | 'E' | '_' | '0'..='9')),
+            "hexdigits" => matches!(d0, Some('0'..='9' | 'a'..='f' | 'A'..='F' | '_')),
             "hex" => matches!(d0, Some('0'..='9' | 'a'..='f' | 'A'..='F' | '_')),
             "binary" => matches!(d0, Some('0' | '1' | '_')),
             _ => d0.is_some_and(|c| c.is_ascii_alphanumeric() || c == '_' || (c as u32 >= 128 && c != '\u{3000}')),
